@@ -158,7 +158,7 @@ def _borrow():
     import importlib
     out = {}
     for mod, names in (('C07', ['overlap', 'get_prob', 'expect_poly']), ('C08', ['ent_dense', 'ent_forms']), ('C09', ['torch_prog']), ('C10', ['torch_history']), ('C12', ['duality_corr']),
-                       ('C15', ['torch_expr', 'reduce_large']), ('C16', ['chi2_product', 'maps_states']), ('C17', ['torch_copy', 'ctor_fresh']), ('C18', ['diag_pauli']),
+                       ('C15', ['torch_expr', 'reduce_large']), ('C16', ['chi2_product', 'chi2_rows', 'maps_states']), ('C17', ['torch_copy', 'ctor_fresh']), ('C18', ['diag_pauli']),
                        ('C20', ['index', 'poly_index', 'roundtrip', 'formats'])):
         m = importlib.import_module('props.' + mod)
         for nme in names:
@@ -252,6 +252,7 @@ def run(ctx):
               'idx': [rng.randrange(L) for _ in range(rng.randint(1, 3))]}[kind]
         do(ctx, 'C20.poly_index', ['torch', terms, kind, ix], nontrivial=('b20', it))
     do(ctx, 'C16.chi2_product', ['torch', 14400 if ctx.tier == 'quick' else 144000, 15], nontrivial='b16')
+    do(ctx, 'C16.chi2_rows', ['torch', 8000 if ctx.tier == 'quick' else 80000, 18], nontrivial='b16r')
     # torch entropy on mixed and pure states with regions of every size, against the dense von Neumann entropy (the real-rank defect of torch z2rank is a known finding)
     for it in range(int(250 * B)):
         n = rng.randint(2, 5)
